@@ -34,13 +34,27 @@ def cv? : Sexp → Option Cv
   | .atom "asyncCallSync" => some .asyncCallSync | .atom "getAsyncFn" => some .getAsyncFn
   | .atom "getAsyncOrSync" => some .getAsyncOrSync | .atom "getAsyncFnWrap" => some .getAsyncFnWrap
   | .atom "twin" => some .twin
+  | .atom "sibling" => some .sibling | .atom "siblingCall" => some .siblingCall | .atom "prior" => some .prior
   | _ => none
 
 def pair? : Sexp → Option (Nat × Nat)
   | .list [a, b] => do some ((← a.nat?), (← b.nat?))
   | _ => none
 
+def rel? : Sexp → Option Rel
+  | .atom "args" => some .args | .atom "recv" => some .recv
+  | _ => none
+
+def vk? : Sexp → Option ValKind
+  | .atom "tok" => some .tok | .atom "chash" => some .chash | .atom "bigint" => some .bigint
+  | .atom "tuple" => some .tuple | .atom "falsy" => some .falsy
+  | _ => none
+
 def case? : List Sexp → Option Case
+  | [k, f, a, b, r, s, pos, .list kw, fl, .list pre, rel, vk] => do
+    some { cell := { kind := (← kind? k), ft := (← ft? f), acc := (← acc? a), bk := (← bk? b) },
+           raises := (← r.bool?), sig := (← sig? s), args := { pos := (← pos.natList?), kw := (← kw.mapM pair?) },
+           falsy := (← fl.bool?), pre := (← pre.mapM acc?), rel := (← rel? rel), vk := (← vk? vk) }
   | [k, f, a, b, r, s, pos, .list kw, fl, .list pre] => do
     some { cell := { kind := (← kind? k), ft := (← ft? f), acc := (← acc? a), bk := (← bk? b) },
            raises := (← r.bool?), sig := (← sig? s), args := { pos := (← pos.natList?), kw := (← kw.mapM pair?) },
@@ -57,6 +71,7 @@ def outcome? : Sexp → Option Outcome
   | .list [.atom "raised", .atom "noAsynq"] => some (.raised .noAsynq)
   | .list [.atom "raised", .atom "typeError"] => some (.raised .typeError)
   | .list [.atom "raised", .atom "attrError"] => some (.raised .attrError)
+  | .list [.atom "raised", .atom "skipped"] => some (.raised .skipped)
   | .list (.atom "raised" :: _) => some (.raised .other)
   | _ => none
 
